@@ -42,6 +42,7 @@ func (c *countingReader) Read(p []byte) (int, error) {
 // CID and the varint length for the block data).
 func CountingLinkSystem(ls ipld.LinkSystem) (ipld.LinkSystem, ReadCounter) {
 	c := counter{}
+	counted := make(map[string]struct{})
 	clc := ls
 	clc.StorageReadOpener = func(lc linking.LinkContext, l ipld.Link) (io.Reader, error) {
 		r, err := ls.StorageReadOpener(lc, l)
@@ -53,6 +54,12 @@ func CountingLinkSystem(ls ipld.LinkSystem) (ipld.LinkSystem, ReadCounter) {
 		if err != nil {
 			return nil, err
 		}
+		// A block that is loaded again (a repeated link, with link-visit-once off) is written
+		// to the CAR once, see TeeingLinkSystem; count it once.
+		if _, ok := counted[l.Binary()]; ok {
+			return buf, nil
+		}
+		counted[l.Binary()] = struct{}{}
 		size := varint.ToUvarint(uint64(n) + uint64(len(l.Binary())))
 		c.totalRead += uint64(len(size)) + uint64(len(l.Binary()))
 		return &countingReader{buf, &c}, nil
